@@ -233,7 +233,11 @@ func (r *Rng) Value(m *big.Int) (*big.Int, string) {
 // canonical) in roughly a third of the draws.
 func (r *Rng) Bytes32Any(m *big.Int) ([]byte, string) {
 	gap := new(big.Int).Sub(two256, m) // number of non-canonical strings
-	switch r.Intn(9) {
+	switch r.Intn(11) {
+	case 9, 10:
+		// equal to m above one word, different in that word, the words below it chosen freely:
+		// a word-by-word (64- or 32-bit) comparison with one wrong branch misjudges exactly these
+		return b32(r.WordStructured(m)), "word-structured-around-m"
 	case 0:
 		return b32(m), "=m"
 	case 1:
@@ -545,4 +549,60 @@ func (r *Rng) FoldWindow(l int, c *big.Int) []byte {
 		return out
 	}
 	return append(hiB, r.Bytes(32)...)
+}
+
+// WordStructured returns a 256-bit value that agrees with m in every w-bit word above word j
+// (w = 64 or 32), is one more / one less / anything else in word j, and has each lower word
+// drawn from {0, all ones, m's word, m's word +- 1, random}.  About half are >= m.
+func (r *Rng) WordStructured(m *big.Int) *big.Int {
+	w := uint(64)
+	if r.Bool() {
+		w = 32
+	}
+	nw := int(256 / w)
+	wmask := new(big.Int).Sub(new(big.Int).Lsh(one, w), one)
+	word := func(v *big.Int, i int) *big.Int { return new(big.Int).And(new(big.Int).Rsh(v, uint(i)*w), wmask) }
+	j := r.Intn(nw)
+	out := new(big.Int)
+	for i := nw - 1; i >= 0; i-- {
+		mw := word(m, i)
+		var x *big.Int
+		switch {
+		case i > j:
+			x = mw
+		case i == j:
+			switch r.Intn(4) {
+			case 0:
+				x = new(big.Int).Add(mw, one)
+			case 1:
+				x = new(big.Int).Sub(mw, one)
+			case 2:
+				x = new(big.Int).SetUint64(r.U64())
+			default:
+				x = mw
+			}
+		default:
+			switch r.Intn(6) {
+			case 0:
+				x = new(big.Int)
+			case 1:
+				x = new(big.Int).Set(wmask)
+			case 2:
+				x = mw
+			case 3:
+				x = new(big.Int).Add(mw, one)
+			case 4:
+				x = new(big.Int).Sub(mw, one)
+			default:
+				x = new(big.Int).SetUint64(r.U64())
+			}
+		}
+		x.And(x, wmask) // (wraps -1 and 2^w)
+		if x.Sign() < 0 {
+			x.Add(x, new(big.Int).Lsh(one, w))
+		}
+		out.Lsh(out, w)
+		out.Or(out, x)
+	}
+	return out
 }
